@@ -171,8 +171,37 @@ func runC09(c *Ctx) {
 					c.Count("outcome:" + out)
 				}
 				// a non-temporal or unsupported unit is an error rather than a silently unchanged value
-				if _, known := calendarUnits[u]; !known {
+				if cls, known := calendarUnits[u]; !known || (x.kind == "time" && cls <= 3) {
 					c.Law(res.kind == "", "C09/unsupported-unit", "a non-temporal or unsupported unit is an error", in, out)
+				}
+				// years and months: the month count moves by exactly the amount, the day is kept or clamped
+				if cls, known := calendarUnits[u]; known && cls <= 1 && res.kind != "" && precRank(x.layout) >= 3 && d.Equal(d.Truncate(0)) {
+					k := d.IntPart()
+					if cls == 0 {
+						k *= 12
+					}
+					if sg == "-" {
+						k = -k
+					}
+					m0 := int64(x.t.Year())*12 + int64(x.t.Month()) - 1
+					m1 := int64(res.t.Year())*12 + int64(res.t.Month()) - 1
+					dim := []int{31, 28, 31, 30, 31, 30, 31, 31, 30, 31, 30, 31}[res.t.Month()-1]
+					if y := res.t.Year(); res.t.Month() == 2 && y%4 == 0 && (y%100 != 0 || y%400 == 0) {
+						dim = 29
+					}
+					wantDay := x.t.Day()
+					if wantDay > dim {
+						wantDay = dim
+					}
+					c.Law(m1 == m0+k && res.t.Day() == wantDay, "C09/month-clamp", "years and months move the month count exactly and clamp the day to the end of the month", in, out)
+				}
+			}
+			// fractions are dropped toward zero: adding a negative amount is subtracting the positive one
+			if d.IsNegative() {
+				if qp, ok3 := mkq(d.Neg().String(), u); ok3 {
+					o1 := ev(add, map[string]any{"x": x.v, "q": q})
+					o2 := ev(sub, map[string]any{"x": x.v, "q": qp})
+					c.Law(canonOutcome(o1, nil) == canonOutcome(o2, nil), "C09/negative-amount", "x + (-q) = x - q (fractions of a unit are dropped toward zero)", fmt.Sprintf("%s + %s '%s' vs %s - %s '%s'", x.desc, a, u, x.desc, d.Neg().String(), u), canonOutcome(o1, nil)+" vs "+canonOutcome(o2, nil))
 				}
 			}
 			// (x + q) - q = x whenever no clamping or truncation occurs
